@@ -10,6 +10,8 @@ NOTE = ("Trusted: go/packages+go/ssa v0.29.0, the symgo interpreter (fork of x/t
 claimed = {
  "C01": dict(level="translation_validation", design="4 C01", tech="translation validation: emitted Go vs. hand-written reference Go, both executed symbolically from go/ssa with symbolic runtime inputs + SMT (z3)",
    text="fc is built from the current tree and run on a hand-kept corpus (let/closures, partial application, pipes, if/elif/else, &&/||, union and string match, records, tuples, slices, destructuring, interpolation, blocks as values, top-level variables); go build decides that the emitted Go compiles; then emitted functions and references written against strict left-to-right call-by-value semantics run symbolically on the same symbolic inputs and z3 discharges equal results and equal effect traces for all input values. Bound: the corpus; slices <= 3/4 elements."),
+ "C02": dict(level="translation_validation", design="4 C02", tech="SSA symbolic execution of the real unifier against a reference mgu (symbolic variable names) + go/types signature pins + annotation-erasure runs of the whole compiler + SMT (z3)",
+   text="Four parts. (1) The real unifyType/updateResolver/resolveType run on generated type pairs (depth 1 x 1, three type variables whose names are symbolic bytes) against an independent Robinson unifier: same resolved type on both sides, equal to the mgu up to renaming, symmetric; relation chains in every order. (2) InferLfd hoists leftover variables to T0,T1,... by first occurrence (parameters, then result). (3) 19 functions from the documentation's inference promises are transpiled by the freshly built fc and pinned by Go assignments that type-check iff type-parameter count/order and every parameter/result type are the principal ones (go build decides). (4) 9 functions x every subset of their redundant annotations erased emit the same Go."),
  "C03": dict(level="translation_validation", design="4 C03", tech="translation validation: hand-written Go client / generated foreign-call family against emitted Go, executed symbolically + SMT (z3); go/types decides 'client compiles'",
    text="A declaration corpus (records, generic records, unions with/without payload, generic unions, top-level funcs/vars, tuples) is transpiled by the freshly built fc and linked with a hand-written Go client that uses only the documented names; go build decides that the client compiles, symgo that it computes what the documentation implies. A generated family of 58 foreign-call forms (arity 1..4 x arguments at the binding x direct/partial/piped, package _ and named package, explicit type arguments) is compared with an asymmetric reference for all argument values."),
  "C05": dict(level="model_checking", design="4 C05", tech="SSA symbolic execution of the real main() under a map-iteration-order oracle (nondeterministic choice per range-over-map), cross-path output comparison",
@@ -36,6 +38,8 @@ claimed = {
    text="Bounded symbolic execution of pkg/dict (operation sequences vs. a parallel-slices model, symbolic keys/values), pkg/strings (each wrapper vs. a direct specification, strings <= 3/4 symbolic bytes), pkg/buf and the frt helpers (Pipe, thunk conditionals, tuples, Sprintf/SInterP on every basic kind); z3 discharges each postcondition."),
  "C16": dict(level="model_checking", design="4 C16", tech="SSA symbolic execution with instruction budget as unwinding assertion + SMT (z3); native timeout replay",
    text="Scanner totality at byte level: every scanner/tokenizer entry on every buffer of <= N symbolic bytes (N=5 quick / 7 thorough) and offset returns or panics inside the instruction budget, tokens lie inside the buffer and nextToken makes progress; a budget-exhausting path is replayed natively under a timeout and reported only if the real code hangs."),
+ "C17": dict(level="translation_validation", design="4 C17", tech="three-way translation validation: tinyfo's Go == reference == fc's Go, executed symbolically + SMT (z3)",
+   text="A tinyfo-profile corpus (annotated functions, arithmetic/comparison, &&/||, if/elif/else, records, unions with match, slices, pairs, destructuring, pipes, partial application, package_info calls) is transpiled by the freshly built tinyfo and by fc; each output is linked with the same hand-written references and executed symbolically on symbolic inputs; z3 discharges equal results and equal effect traces for both, hence tinyfo == fc on the corpus."),
  "C18": dict(level="model_checking", design="4 C18", tech="SSA symbolic execution of the real main() over a virtual file system + SMT (z3)",
    text="The real main/processListFile/convOne of cmd/build_sample_md run symbolically over a virtual file system: list file = N symbolic bytes (5 quick / 7 thorough), every listed file has symbolic content and a symbolic readable flag; z3 discharges byte equality of the written README.md with an independent reference rendering, exactly one write, and failure without output when a file is unreadable."),
 }
